@@ -224,7 +224,11 @@ def compare(ck, case, after, err, narr, resp):
     if list(mv.keys()) != list(iv.keys()):
         ck.disagree("vertex keys/order", f"model {list(mv)[:8]} impl {list(iv)[:8]}", case); return
     for k in mv:
-        if mv[k] != iv[k]:
+        # coordinates of merged vertices are a float mean in the code and an exact mean in the model: 1e-12 relative
+        a, b = mv[k], iv[k]
+        same = a[0] == b[0] and a[3] == b[3] and a[4] == b[4] and \
+            abs(a[1] - b[1]) <= 1e-12 * (abs(b[1]) + 1e-300) and abs(a[2] - b[2]) <= 1e-12 * (abs(b[2]) + 1e-300)
+        if not same:
             ck.disagree("vertex", f"{k}: model {mv[k]} impl {iv[k]}", case); return
     me = {int(r[0]): (int(r[2]), int(r[3])) for r in resp["mesh"]["e"]}
     if me != after["e"] or list(me.keys()) != list(after["e"].keys()):
